@@ -105,6 +105,9 @@ func thmRecordRoundTrip(s *SAM, key string) {
 		//@ assert m + 1 == len(texts) ==> e10 + tws(texts, m) + len(texts[m]) == len(text)
 		//@ assert forall x int :: e10 + tws(texts, m) <= x && x < e10 + tws(texts, m) + len(texts[m]) ==> text[x] != 9
 		//@ assert splitE(text, 9, 11 + m) == e10 + tws(texts, m) + len(texts[m])
+		//@ assert len(splitF(text, 9, 11 + m)) == len(texts[m])
+		//@ assert forall j int :: {splitF(text, 9, 11 + m)[j]} 0 <= j && j < len(texts[m]) ==> splitF(text, 9, 11 + m)[j] == text[e10 + tws(texts, m) + j]
+		//@ assert forall j int :: {splitF(text, 9, 11 + m)[j]} 0 <= j && j < len(texts[m]) ==> splitF(text, 9, 11 + m)[j] == texts[m][j]
 		//@ assert strEq(splitF(text, 9, 11 + m), texts[m])
 	}
 	// the mandatory fields are the renderings
